@@ -118,6 +118,8 @@ DEFAULT_OPTS = {
     'max_stmts': 6,
     'names_extra': None,         # extra identifier pool (C02: thousands of names)
     'vararg_main': True,
+    'top_stmts': None,           # number of statements of the outermost block (big programs)
+    'stat_bias': None,           # statement kinds given extra weight, e.g. ['shortif'] * 20
     'table_methods': 0.0,        # probability that a table field is `name=function ... end` whose body is block; line-scoped; plain
 }
 
@@ -531,6 +533,8 @@ class Gen:
         rng = self.rng
         stats = []
         n = rng.randint(0 if not top else 1, self.o['max_stmts'] if d > 0 else 2)
+        if top and self.o['top_stmts']:
+            n = self.o['top_stmts']
         for k in (force or ()):
             self.p.stmts.append(len(self.p.toks))
             stats.append(getattr(self, 's_' + k)(d))
@@ -575,6 +579,8 @@ class Gen:
             kinds.append('qprint')
         if self.o['goto'] and not self.in_line:
             kinds += ['label', 'goto']
+        if self.o['stat_bias'] and not self.in_line and d > 0:
+            kinds += self.o['stat_bias']
         k = rng.choice(kinds)
         return getattr(self, 's_' + k)(d)
 
